@@ -168,6 +168,7 @@ pub const VALID_NAMES: &[&str] = &[
     "Mixed.Case.Ext",
     "~1",
     "$%'-_@~`!(){}^#&",
+    "cfg{0}~a`.ini",
     "éa.txt",
     "dir",
     "sub",
@@ -191,6 +192,32 @@ pub fn long_name(len: usize, tag: char) -> String {
     }
     s.truncate(len);
     s
+}
+
+/// `name` with one bit of one inner ASCII character flipped, if that gives a different valid name that does not
+/// merely differ in letter case
+pub fn near_miss(rng: &mut Rng, name: &str) -> Option<String> {
+    let chars: Vec<char> = name.chars().collect();
+    if chars.len() < 3 {
+        return None;
+    }
+    const OK: &str = "$%'-_@~`!(){}^#&+,;=[]";
+    for _ in 0..16 {
+        let i = 1 + rng.usize_below(chars.len() - 2);
+        let c = chars[i];
+        if !c.is_ascii() || c == '.' || c == ' ' {
+            continue;
+        }
+        let bit = if rng.chance(1, 2) { 5 } else { rng.below(7) as u32 };
+        let d = char::from((c as u8) ^ (1u8 << bit));
+        if !(d.is_ascii_alphanumeric() || OK.contains(d)) || d.eq_ignore_ascii_case(&c) {
+            continue;
+        }
+        let mut v = chars.clone();
+        v[i] = d;
+        return Some(v.into_iter().collect());
+    }
+    None
 }
 
 pub struct Gen {
@@ -224,6 +251,19 @@ impl Gen {
             };
             if !names.contains(&s) {
                 names.push(s);
+            }
+        }
+        // near-miss siblings: a pool name with one bit of one ASCII character flipped ('{' / '[', '~' / '^', 'a' / 'c',
+        // '1' / '3' ...): distinct names that a sloppy comparison or hash would merge
+        if rng.chance(1, 3) {
+            let k = rng.range(1, 2);
+            for _ in 0..k {
+                let base = names[rng.usize_below(names.len())].clone();
+                if let Some(s) = near_miss(&mut rng, &base) {
+                    if !names.contains(&s) {
+                        names.push(s);
+                    }
+                }
             }
         }
         // always a couple of plain directory-ish names so depth is reachable
